@@ -558,6 +558,16 @@ def multigrid(model, sfield, efield, var, **kwargs):
     # Start the actual (recursive) multigrid cycle.
     while level == 0 or (level > 0 and it < cycmax):
 
+        # On the original grid cycmax has to be re-computed in every cycle, as
+        # sc_dir (and with it the coarsest level) can change between cycles.
+        if level == 0:
+            if level == var.clevel[var.sc_dir]:
+                cycmax = 1
+            elif new_cycmax == 0 or var.cycle != 'F':
+                cycmax = var.cycmax
+            else:
+                cycmax = new_cycmax
+
         # Store errors for comparisons (previous and previous of same cycle).
         l2_prev = l2_last
         l2_stag[(it-1) % var.maxcycle] = l2_last
